@@ -138,6 +138,19 @@ pub fn main(args: &[String]) -> i32 {
             let gr = g.regroup(&r);
             let w: Vec<String> = (0..2 + g.rng.below(3)).map(|_| { let mut t = g.small_word(); if g.rng.chance(1, 2) { let v = ["a", "i", "u"][g.rng.below(3)]; t = format!("{t}.{v}.{}", g.small_word()); } t }).collect();
             (r, gr, w)
+        } else if case % 12 == 6 {
+            // focused stream: several groups, each with a rule that fails at run time on one kind of word, and words that fail in
+            // different groups: the error of a run is the error of the FIRST failing word, whatever group it fails in
+            let traps = [("a > *", "a"), ("% > *", "ti"), ("e > 1", "te"), ("o > %", "to"), ("u > [-long, +overlong]", "tu"), ("s > *", "s"), ("% > * / _#", "ki")];
+            let k = 2 + g.rng.below(2);
+            let mut pick: Vec<usize> = Vec::new();
+            while pick.len() < k { let i = g.rng.below(traps.len()); if !pick.contains(&i) { pick.push(i); } }
+            let gr: Vec<Vec<String>> = pick.iter().map(|i| { let mut v = vec![traps[*i].0.to_string()]; if g.rng.chance(1, 3) { v.insert(0, "p > b".into()); } v }).collect();
+            let r: Vec<String> = gr.iter().flatten().cloned().collect();
+            let mut w: Vec<String> = pick.iter().rev().map(|i| traps[*i].1.to_string()).collect();
+            if g.rng.chance(1, 2) { w.swap(0, 1); }
+            for _ in 0..g.rng.below(3) { let at = g.rng.below(w.len() + 1); w.insert(at, ["pi.ki", "mi.ni.ki", "pim.pi"][g.rng.below(3)].to_string()); }
+            (r, gr, w)
         } else if case % 12 == 0 {
             // focused stream: a rule that makes a segment long (the run grows inside the syllable's buffer, also at its very front),
             // then rules that look at length; words with onsetless syllables among them
